@@ -49,6 +49,31 @@ extern "C" int parse_safety()
   return 0;
 }
 
+// longer texts over the bytes that drive line counting: tags, processing instructions, comments, line breaks, one letter
+#ifndef VF_PLEN
+#define VF_PLEN 6
+#endif
+extern "C" int error_position()
+{
+  unsigned n = vf_pick(VF_PLEN + 1);
+  char* buf = (char*)vf_alloc(n + 1);
+  for(unsigned i = 0; i < n; ++i) { byte b = vf_u8(); vf_assume((b == '<') | (b == '?') | (b == '>') | (b == '\n') | (b == '\r') | (b == 'a') | (b == '/')); buf[i] = (char)b; }
+  buf[n] = 0;
+  {
+    Xml::Private parser; Xml::Element e;
+    if(!parser.parse(buf, e))
+    {
+      unsigned lines = 1;
+      for(unsigned i = 0; i < n; ++i) lines += (buf[i] == '\n') | ((buf[i] == '\r') & (buf[i + 1] != '\n'));
+      vf_assert(parser.errorLine >= 1 && (unsigned)parser.errorLine <= lines, "error line lies inside the text");
+      vf_assert(parser.errorColumn >= 1 && (unsigned)parser.errorColumn <= vf_lineLength(buf, n, (unsigned)parser.errorLine) + 1, "error column lies inside its line");
+    }
+  }
+  vf_free(buf);
+  vf_reach("end");
+  return 0;
+}
+
 // comments are accepted wherever white space is allowed, processing instructions before the root
 extern "C" int comments()
 {
@@ -126,6 +151,14 @@ extern "C" int roundtrip()
     bool ok = parser.parse(text, back);
     vf_assert(ok, "parse(toString(e)) succeeds");
     sameElement(root, back);
+    // the result element need not be fresh: parsing again into it, or into an element that held something else
+    unsigned again = vf_pick(3);
+    if(again == 1) { ok = parser.parse(text, back); vf_assert(ok, "second parse succeeds"); sameElement(root, back); }
+    else if(again == 2)
+    {
+      Xml::Element used; used.type = "old"; used.attributes.append("o", "1"); used.content.append(Xml::Variant(String("old text")));
+      ok = parser.parse(text, used); vf_assert(ok, "parse into a used element succeeds"); sameElement(root, used);
+    }
   }
   vf_reach("end");
   return 0;
@@ -137,8 +170,24 @@ extern "C" int copies()
   {
     Xml::Element e; e.type = "e"; e.attributes.append("k", "v");
     Xml::Variant a(e);
-    unsigned op = vf_pick(5);
-    if(op == 3)
+    unsigned op = vf_pick(6);
+    if(op == 5)
+    {
+      // descend one level: assign an element from one of its own children (the argument lives inside the target)
+      Xml::Element root; root.type = "a";
+      Xml::Element child; child.type = "b"; child.attributes.append("x", "1");
+      Xml::Element grand; grand.type = "c"; child.content.append(Xml::Variant(grand)); child.content.append(Xml::Variant(String("text")));
+      root.content.append(Xml::Variant(child));
+      const Xml::Variant& first = root.content.front();
+      root = first.toElement();
+      vf_assert(root.type == "b", "element assigned from its own child: name");
+      vf_assert(root.attributes.size() == 1 && *root.attributes.find("x") == "1", "element assigned from its own child: attributes");
+      vf_assert(root.content.size() == 2, "element assigned from its own child: children kept");
+      const Xml::Variant& g = root.content.front();
+      vf_assert(g.isElement() && g.toElement().type == "c", "element assigned from its own child: first child");
+      vf_assert(root.content.back().toString() == "text", "element assigned from its own child: text");
+    }
+    else if(op == 3)
     {
       // assignment from another handle shares the payload (counted), releasing what the target held before
       Xml::Variant b, c(String("old"));
